@@ -87,7 +87,14 @@ class NDNApp:
                 self.logger.warning('Unable to decode received packet')
                 return
             data = fragment
-            typ, _ = parse_tl_num(data)
+            if not data:
+                # IDLE packet: no (or an empty) Fragment, nothing to deliver
+                return
+            try:
+                typ, _ = parse_tl_num(data)
+            except (IndexError, struct.error):
+                self.logger.warning('Unable to decode received packet')
+                return
         else:
             nack_reason = None
 
